@@ -82,35 +82,40 @@ Fixpoint int_digits (base : N) (s : text) (acc : N) (ndig : nat) (prev_us : bool
 
 Definition lower_is (c x : N) : bool := (c =? x) || (c =? x - 32).   (* x a lower-case letter *)
 
-(* PyLong_FromString(str, &end, base) followed by PyLong_FromUnicodeObject's end-of-string test;
-   base0 = true: base 0, false: base 10 *)
-Definition py_int (base0 : bool) (s : text) : option Z :=
-  let s1 := dropwhile c_isspace (to_ascii s) in
-  let '(neg, s2) := match s1 with
-                    | c :: r => if c =? ch_plus then (false, r) else if c =? ch_minus then (true, r) else (false, s1)
-                    | [] => (false, s1)
-                    end in
-  let '(base, old_octal) :=
-    if base0 then
-      match s2 with
-      | c0 :: c1 :: _ =>
-          if negb (c0 =? ch_zero) then (10, false)
-          else if lower_is c1 120 then (16, false)
-          else if lower_is c1 111 then (8, false)
-          else if lower_is c1 98 then (2, false)
-          else (10, true)
-      | [c0] => if c0 =? ch_zero then (10, true) else (10, false)
-      | [] => (10, false)
-      end
-    else (10, false) in
-  let s3 :=
+(* the pieces of PyLong_FromString(str, &end, base) *)
+Definition int_sign (s1 : text) : bool * text :=
+  match s1 with
+  | c :: r => if c =? ch_plus then (false, r) else if c =? ch_minus then (true, r) else (false, s1)
+  | [] => (false, s1)
+  end.
+
+(* base 0: the base from the prefix; a leading 0 without a radix letter is an "old octal" literal, valid
+   only if it is zero *)
+Definition int_base (base0 : bool) (s2 : text) : N * bool :=
+  if base0 then
     match s2 with
-    | c0 :: c1 :: r =>
-        if (c0 =? ch_zero) && (((base =? 16) && lower_is c1 120) || ((base =? 8) && lower_is c1 111) || ((base =? 2) && lower_is c1 98))
-        then match r with c2 :: r' => if c2 =? ch_us then r' else r | [] => r end
-        else s2
-    | _ => s2
-    end in
+    | c0 :: c1 :: _ =>
+        if negb (c0 =? ch_zero) then (10, false)
+        else if lower_is c1 120 then (16, false)
+        else if lower_is c1 111 then (8, false)
+        else if lower_is c1 98 then (2, false)
+        else (10, true)
+    | [c0] => if c0 =? ch_zero then (10, true) else (10, false)
+    | [] => (10, false)
+    end
+  else (10, false).
+
+(* skip 0x / 0o / 0b matching the base, and one underscore after it *)
+Definition int_skip_prefix (base : N) (s2 : text) : text :=
+  match s2 with
+  | c0 :: c1 :: r =>
+      if (c0 =? ch_zero) && (((base =? 16) && lower_is c1 120) || ((base =? 8) && lower_is c1 111) || ((base =? 2) && lower_is c1 98))
+      then match r with c2 :: r' => if c2 =? ch_us then r' else r | [] => r end
+      else s2
+  | _ => s2
+  end.
+
+Definition int_finish (neg : bool) (base : N) (old_octal : bool) (s3 : text) : option Z :=
   match s3 with
   | c :: _ => if c =? ch_us then None else
       match int_digits base s3 0 O false with
@@ -125,6 +130,14 @@ Definition py_int (base0 : bool) (s : text) : option Z :=
       end
   | [] => None
   end.
+
+(* PyLong_FromString(str, &end, base) followed by PyLong_FromUnicodeObject's end-of-string test;
+   base0 = true: base 0, false: base 10 *)
+Definition py_int (base0 : bool) (s : text) : option Z :=
+  let s1 := dropwhile c_isspace (to_ascii s) in
+  let '(neg, s2) := int_sign s1 in
+  let '(base, old_octal) := int_base base0 s2 in
+  int_finish neg base old_octal (int_skip_prefix base s2).
 
 (* ------------------------------------------------------------------ strtod *)
 
@@ -163,29 +176,35 @@ Definition parse_inf_nan (s : text) : option (fdesc * text) :=
             end
   end.
 
+(* digits [. digits]: value of all the digits, how many there are, how many follow the point, rest *)
+Definition mantissa (s1 : text) : N * nat * nat * text :=
+  let '(ip, nip, s2) := dec_run s1 0 O in
+  match s2 with
+  | c :: r =>
+      if c =? ch_dot then let '(m, nfr, s3) := dec_run r ip O in (m, (nip + nfr)%nat, nfr, s3)
+      else (ip, nip, O, s2)
+  | [] => (ip, nip, O, s2)
+  end.
+
+(* [e|E [sign] digits]; an exponent marker without digits is not consumed *)
+Definition exponent (s3 : text) : Z * text :=
+  match s3 with
+  | c :: r =>
+      if lower_is c ch_e then
+        let '(eneg, r1) := take_sign r in
+        let '(ev, nev, r2) := dec_run r1 0 O in
+        if Nat.eqb nev O then (0%Z, s3) else ((if eneg then Z.opp (Z.of_N ev) else Z.of_N ev), r2)
+      else (0%Z, s3)
+  | [] => (0%Z, s3)
+  end.
+
 (* PyOS_string_to_double(s, &end): the longest prefix that is a decimal floating-point text or
    inf / infinity / nan; None when there is no such prefix (end == s) *)
 Definition strtod (s : text) : option (fdesc * text) :=
   let '(neg, s1) := take_sign s in
-  let '(ip, nip, s2) := dec_run s1 0 O in
-  let '(m, nfr, s3) :=
-    match s2 with
-    | c :: r => if c =? ch_dot then dec_run r ip O else (ip, O, s2)
-    | [] => (ip, O, s2)
-    end in
-  if Nat.eqb (nip + nfr) O then parse_inf_nan s
-  else
-    let '(ex, s4) :=
-      match s3 with
-      | c :: r =>
-          if lower_is c ch_e then
-            let '(eneg, r1) := take_sign r in
-            let '(ev, nev, r2) := dec_run r1 0 O in
-            if Nat.eqb nev O then (0%Z, s3) else ((if eneg then Z.opp (Z.of_N ev) else Z.of_N ev), r2)
-          else (0%Z, s3)
-      | [] => (0%Z, s3)
-      end in
-    Some (FFin neg m (ex - Z.of_nat nfr), s4).
+  let '(m, nd, nfr, s3) := mantissa s1 in
+  if Nat.eqb nd O then parse_inf_nan s
+  else let '(ex, s4) := exponent s3 in Some (FFin neg m (ex - Z.of_nat nfr), s4).
 
 (* _Py_string_to_number_with_underscores: an underscore must stand between two digits; they are removed *)
 Fixpoint us_check (s : text) (prev_dec : bool) : bool :=
@@ -217,50 +236,57 @@ Definition one (neg : bool) : fdesc := FFin neg 1 0.
 Definition fzero : fdesc := FFin false 0 0.
 Definition is_j (c : N) : bool := (c =? ch_j) || (c =? ch_J).
 
-(* complex_from_string_inner *)
-Definition complex_inner (s0 : text) : option (fdesc * fdesc) :=
+(* complex_from_string_inner, in three steps: leading blanks and an opening parenthesis ... *)
+Definition cx_open (s0 : text) : bool * text :=
   let s := dropwhile c_isspace s0 in
-  let '(br, s) := match s with
-                  | c :: r => if c =? ch_lpar then (true, dropwhile c_isspace r) else (false, s)
-                  | [] => (false, s)
-                  end in
-  let res :=
-    match strtod s with
-    | Some (z, s1) =>
-        match s1 with
-        | c :: r =>
-            if (c =? ch_plus) || (c =? ch_minus) then
-              let '(y, s2) := match strtod s1 with
-                              | Some (y, s2) => (y, s2)
-                              | None => (one (c =? ch_minus), r)
-                              end in
-              match s2 with
-              | d :: r2 => if is_j d then Some (z, y, r2) else None
-              | [] => None
-              end
-            else if is_j c then Some (fzero, z, r)
-            else Some (z, fzero, s1)
-        | [] => Some (z, fzero, s1)
-        end
-    | None =>
-        let '(y, s1) := match s with
-                        | c :: r => if c =? ch_plus then (one false, r) else if c =? ch_minus then (one true, r) else (one false, s)
-                        | [] => (one false, s)
-                        end in
-        match s1 with
-        | d :: r => if is_j d then Some (fzero, y, r) else None
-        | [] => None
-        end
-    end in
-  match res with
-  | Some (x, y, rest) =>
-      let rest := dropwhile c_isspace rest in
-      let rest := if br then match rest with
-                             | c :: r => if c =? ch_rpar then Some (dropwhile c_isspace r) else None
-                             | [] => None
-                             end
-                  else Some rest in
-      match rest with Some [] => Some (x, y) | _ => None end
+  match s with
+  | c :: r => if c =? ch_lpar then (true, dropwhile c_isspace r) else (false, s)
+  | [] => (false, s)
+  end.
+
+(* ... <float> | <float>j | <float><signed-float>j | <float><sign>j | [<sign>]j ... *)
+Definition cx_body (s : text) : option (fdesc * fdesc * text) :=
+  match strtod s with
+  | Some (z, s1) =>
+      match s1 with
+      | c :: r =>
+          if (c =? ch_plus) || (c =? ch_minus) then
+            let '(y, s2) := match strtod s1 with
+                            | Some (y, s2) => (y, s2)
+                            | None => (one (c =? ch_minus), r)
+                            end in
+            match s2 with
+            | d :: r2 => if is_j d then Some (z, y, r2) else None
+            | [] => None
+            end
+          else if is_j c then Some (fzero, z, r)
+          else Some (z, fzero, s1)
+      | [] => Some (z, fzero, s1)
+      end
+  | None =>
+      let '(y, s1) := match s with
+                      | c :: r => if c =? ch_plus then (one false, r) else if c =? ch_minus then (one true, r) else (one false, s)
+                      | [] => (one false, s)
+                      end in
+      match s1 with
+      | d :: r => if is_j d then Some (fzero, y, r) else None
+      | [] => None
+      end
+  end.
+
+(* ... trailing blanks, the closing parenthesis, end of the string *)
+Definition cx_close (br : bool) (rest : text) : bool :=
+  let rest := dropwhile c_isspace rest in
+  if br then match rest with
+             | c :: r => (c =? ch_rpar) && match dropwhile c_isspace r with [] => true | _ => false end
+             | [] => false
+             end
+  else match rest with [] => true | _ => false end.
+
+Definition complex_inner (s0 : text) : option (fdesc * fdesc) :=
+  let '(br, s) := cx_open s0 in
+  match cx_body s with
+  | Some (x, y, rest) => if cx_close br rest then Some (x, y) else None
   | None => None
   end.
 
